@@ -1,0 +1,12 @@
+//go:build verif
+
+package paths
+
+// Thin exported wrappers of unexported functions, so that a verification harness can drive them
+// directly.  Compiled only with the `verif` build tag.
+
+func VerifVolumeNameLen(p string) int { return volumeNameLen(p) }
+
+func VerifIsWindowsAbs(p string) bool { return isWindowsAbs(p) }
+
+func VerifIsRemoteContext(p string) bool { return isRemoteContext(p) }
